@@ -1,7 +1,8 @@
 from common import *
 ID = 'C13'
-TRANSLATORS = []
-COQ_TARGETS = ['Properties_C13.vo']
+TRANSLATORS = [('consts2coq.py', ['coq/Gen/Consts.v'])]
+GEN_FILES = ['coq/Gen/Consts.v']
+COQ_TARGETS = ['Properties_C13.vo', 'Proof/ConstsVarint.vo']
 HARNESS_MODS = ['lenp']
 RULE = ('cases per encoder entry point (lenp.m2s memory->sink, lenp.b2s buffer->sink, lenp.b2sn first n unread->sink, lenp.c2s chunk list->sink, lenp.menc / lenp.benc / '
         'lenp.bencn / lenp.cuse into a prefix object) and decoder (lenp.mfs memory destination incl. several consecutive frames on one fragmenting source, lenp.bfs buffer '
